@@ -654,6 +654,7 @@ func (s *sim) sampleDir() {
 // on everything new.
 func (s *sim) observe() {
 	e := s.env
+	prevDir := s.curDir
 	s.sampleDir()
 	for i, p := range s.peers {
 		if p != nil && s.alive[i] && !p.IsRunning() {
@@ -665,6 +666,14 @@ func (s *sim) observe() {
 	capd, snaps := s.captured, s.snapCap
 	s.captured, s.snapCap = nil, nil
 	s.mu.Unlock()
+	if s.curDir != prevDir && len(capd) > 0 {
+		// The attempt ended in the very settle in which its fetchers sent these requests (e.g.
+		// the light client failed right after the offer was accepted): whether a fetcher got its
+		// request out before the queue was closed is a race inside the reactor. Nothing depends on
+		// these requests any more; they are dropped to keep the run replayable.
+		e.Count("probe.requests_of_ended_attempt_dropped")
+		capd = nil
+	}
 	sort.Ints(snaps)
 	for _, p := range snaps {
 		if s.alive[p] {
